@@ -106,7 +106,7 @@ func gen(r *verifsim.Rng, tier string) (any, hx.Sched) {
 		in := insts[r.Intn(len(insts))]
 		op := Op{K: "W", Inst: in.Inst, Val: verifsim.Pick(r, values)}
 		if in.Class == "G1" {
-			op.Mem = verifsim.Pick(r, []string{"p", "p", "p", "set", "put", "put"})
+			op.Mem = verifsim.Pick(r, []string{"p", "p", "p", "set", "put", "put", "q"}) // q: declared ?T
 		} else if in.Class == "G3" {
 			op.Mem = verifsim.Pick(r, []string{"p", "put"})
 		} else if in.Class == "G5" {
@@ -198,6 +198,7 @@ class G5<T> {
 }
 class G1<T> {
   public T $p;
+  public ?T $q = null;
   public function set(T $v) { return 1; }
   public function put($v) { $this->p = $v; return 1; }
 }
@@ -217,11 +218,12 @@ class G4<A, B, C, D> {
   public C $c;
   public D $d;
 }
-class Cint { public int $p; public function set(int $v) { return 1; } }
-class Cstring { public string $p; public function set(string $v) { return 1; } }
-class Carray { public array $p; public function set(array $v) { return 1; } }
-class CU { public U $p; public function set(U $v) { return 1; } }
+class Cint { public int $p; public ?int $q = null; public function set(int $v) { return 1; } }
+class Cstring { public string $p; public ?string $q = null; public function set(string $v) { return 1; } }
+class Carray { public array $p; public ?array $q = null; public function set(array $v) { return 1; } }
+class CU { public U $p; public ?U $q = null; public function set(U $v) { return 1; } }
 function wp($o, $v) { try { $o->p = $v; return "A"; } catch (\Throwable $e) { return "R"; } }
+function wq($o, $v) { try { $o->q = $v; return "A"; } catch (\Throwable $e) { return "R"; } }
 function wa($o, $v) { try { $o->a = $v; return "A"; } catch (\Throwable $e) { return "R"; } }
 function wb($o, $v) { try { $o->b = $v; return "A"; } catch (\Throwable $e) { return "R"; } }
 function wc($o, $v) { try { $o->c = $v; return "A"; } catch (\Throwable $e) { return "R"; } }
@@ -247,7 +249,7 @@ func renderOp(op Op, idx int) string {
 		}
 		return fmt.Sprintf("$o%d = new %s<%s>();\n", op.Inst, op.Class, strings.Join(op.Args, ", "))
 	}
-	fn := map[string]string{"p": "wp", "a": "wa", "b": "wb", "set": "wset", "put": "wput", "c": "wc", "d": "wd", "fill": "wfill", "made": "wmade"}[op.Mem]
+	fn := map[string]string{"p": "wp", "q": "wq", "a": "wa", "b": "wb", "set": "wset", "put": "wput", "c": "wc", "d": "wd", "fill": "wfill", "made": "wmade"}[op.Mem]
 	return fmt.Sprintf("__rec(\"w%d\", %s($o%d, %s));\n", idx, fn, op.Inst, valueExpr[op.Val])
 }
 
@@ -259,6 +261,7 @@ func concreteScript() string {
 		for _, v := range values {
 			fmt.Fprintf(&b, "__rec(\"c.p.%s.%s\", wp(new C%s(), %s));\n", t, v, t, valueExpr[v])
 			fmt.Fprintf(&b, "__rec(\"c.set.%s.%s\", wset(new C%s(), %s));\n", t, v, t, valueExpr[v])
+			fmt.Fprintf(&b, "__rec(\"c.q.%s.%s\", wq(new C%s(), %s));\n", t, v, t, valueExpr[v])
 		}
 	}
 	return b.String()
@@ -411,6 +414,9 @@ func exec(t *testing.T, x any, s hx.Sched) *hx.Outcome {
 			}
 			// oracle 2 (own arguments): differential against a non-generic class declared with the concrete type
 			ckey := fmt.Sprintf("c.%s.%s.%s", map[bool]string{true: "set", false: "p"}[op.Mem == "set"], targ, op.Val) // put() stores into p
+			if op.Mem == "q" {
+				ckey = fmt.Sprintf("c.q.%s.%s", targ, op.Val)
+			}
 			if op.Mem == "fill" || op.Mem == "made" {
 				ckey = "" // what `new T()` builds has no non-generic counterpart; the solo oracle covers it
 			}
